@@ -2,6 +2,7 @@ import Gsp.Model.Mz
 import Gsp.Lemmas.Smt
 import Gsp.Lemmas.HashCRWitness
 import Gsp.Lemmas.SmtPerm
+import Gsp.Lemmas.RdfPerm
 /-! C03 — the root is a canonical function of the document's meaning.
     Proved here: insertion-order independence of the tree itself (`insertion_order_irrelevant`, via the canonical
     tree `build` of Gsp.Lemmas.SmtPerm), content independence, root binding and single-field sensitivity under the
@@ -61,6 +62,20 @@ theorem insertion_order_irrelevant (P : List Nat → Nat) (l₁ l₂ : List (Nat
 /-- a caller-provided empty tree is the default tree -/
 theorem empty_tree_param (canon : String → Option String) (h : Hasher) (ds : Rdf.Dataset) :
     Mz.merklize canon h ds .empty = Mz.merklize canon h ds := rfl
+
+/-- **Repeated merklization gives the same entries**: Go hands out the graphs of `ds.Graphs` in an unspecified
+    order that may differ from run to run; in the model that order is the order of the dataset list. Entries (and
+    their order, and the error class on failure) are the same for every such order — graph names being distinct, as
+    the keys of a map are. -/
+theorem entries_map_order_irrelevant (canon : String → Option String) (p : Nat) (ds ds' : Rdf.Dataset)
+    (hp : ds.Perm ds') (hnd : (Rdf.names ds).Nodup) : Rdf.entries canon p ds = Rdf.entries canon p ds' :=
+  Rdf.entries_perm canon p hp hnd
+
+/-- … and therefore the same merklizer: same (key, value) pairs, same tree, same root -/
+theorem merklize_map_order_irrelevant (canon : String → Option String) (h : Hasher) (ds ds' : Rdf.Dataset) (t₀ : T)
+    (hp : ds.Perm ds') (hnd : (Rdf.names ds).Nodup) : Mz.merklize canon h ds t₀ = Mz.merklize canon h ds' t₀ := by
+  unfold Mz.merklize
+  rw [Rdf.entries_perm canon h.prime hp hnd]
 
 /-- **Root binding**: under the idealised-hash hypothesis equal roots mean equal trees — the root determines
     every leaf's key, value and position. -/
